@@ -106,8 +106,9 @@ def chain_always_pushed(ctx, rule, variants, what):
 
 
 def chain_only_pushed(ctx, rule, ty_marker='UserComponent'):
-    """no insert/remove/reverse/sort/truncate on the chain vectors in the blueprint-processing module"""
-    bad_ops = {'insert', 'remove', 'reverse', 'sort', 'sort_by', 'sort_by_key', 'truncate', 'clear', 'pop', 'swap', 'retain', 'drain', 'dedup', 'swap_remove', 'rotate_left'}
+    """no insert/remove/reverse/sort/truncate on the chain vectors in the blueprint-processing module, and no `mem::take` / `mem::replace` /
+    `mem::swap` of a chain (handing the chain itself to a nested blueprint leaves nothing for whoever reads it next: a routes import, a fallback)"""
+    bad_ops = {'insert', 'remove', 'reverse', 'sort', 'sort_by', 'sort_by_key', 'truncate', 'clear', 'pop', 'swap', 'retain', 'drain', 'dedup', 'swap_remove', 'rotate_left', 'rotate_right', 'split_off', 'take', 'replace', 'dedup_by', 'dedup_by_key', 'set_len'}
     n = 0
     for b in ctx.fb.bodies('pavexc'):
         if b.is_promoted or not b.nroot.startswith(BP):
@@ -388,3 +389,65 @@ def vec_append_only(ctx, rule, crate, fn, elem_marker, what):
                     ctx.ob(rule, 'list-mutation|%s|%s' % (fn.split('::')[-1], m), False, b.loc(bb, t), 'Vec::%s on %s in %s: entries can disappear' % (m, what, fn.split('::')[-1]))
     ctx.ob(rule, 'append-only|%s' % fn.split('::')[-1], True, '', '%d mutable accesses to %s, none removes' % (n, what), nontrivial=False)
     ctx.floor(rule, 'mutable accesses to %s' % what, n, 1)
+
+
+def chain_recorded_per_handler(ctx, rule, map_field, what):
+    """every insert into `<aux>.<map_field>` in the user_components module stores a value that derives from a chain the registering function
+    was HANDED (a parameter / the queue item) and from nothing the module has stored before (no field of AuxiliaryData / UserComponentDb)"""
+    from ..govern import field_reads_of_slice
+    UC = A + 'user_components::'
+    STATE = ('auxiliary::AuxiliaryData', 'db::UserComponentDb')
+    n = 0
+    for b in ctx.fb.bodies('pavexc'):
+        if b.is_promoted or not b.nroot.startswith(UC):
+            continue
+        defs = None
+        for bb, t in b.calls():
+            m = (callee(t) or '').split('::')[-1]
+            if m not in ('insert', 'entry', 'extend', 'push') or not t['args']:
+                continue
+            recv = op_place(t['args'][0])
+            if recv is None:
+                continue
+            defs = defs or Defs(b)
+            rsl, _ = backward_slice(b, recv['l'], defs, through_calls=False)
+            hit = False
+            for _, _, node in rsl:
+                q = node.get('rv', {}).get('pl') if 'rv' in node else None
+                if q and ('f:' + map_field) in q.get('p', []):
+                    hit = True
+            if not hit:
+                continue
+            n += 1
+            val = op_place(t['args'][-1])
+            fn = b.nroot.replace(UC, '')
+            if val is None or m != 'insert':
+                ctx.ob(rule, 'per-handler-chain|%s|%s' % (fn, map_field), False, b.loc(bb, t), '%s.%s is written through `%s`, whose value cannot be followed' % (fn, map_field, m))
+                continue
+            sl, locs = backward_slice(b, val['l'], defs)
+            params = sorted(b.var_name(l) or '_%d' % l for l in locs if 1 <= l <= b.raw['argc'] and 'UserComponent>' in b.locals[l] and not b.locals[l].startswith('la_arena'))
+            stored = set()
+            for _, _, node in sl:
+                places = []
+                if 'rv' in node:
+                    from ..flow import rv_operands
+                    ops, pls = rv_operands(node['rv'])
+                    places = pls + [op_place(o) for o in ops if op_place(o) is not None]
+                elif node.get('k') == 'call':
+                    places = [op_place(o) for o in node['args'] if op_place(o) is not None]
+                for q in places:
+                    fo = q.get('fo') or []
+                    i = 0
+                    for el in q.get('p', []):
+                        if el.startswith('f:'):
+                            o = fo[i] if i < len(fo) else ''
+                            i += 1
+                            if any(s in o for s in STATE):
+                                stored.add(el[2:])
+            # chains kept in a local of the function itself (the queue item of process_blueprint) count as handed over
+            own = sorted(b.var_name(l) for l in locs if b.var_name(l) and 'chain' in (b.var_name(l) or ''))
+            ok = bool(params or own) and not stored
+            ctx.ob(rule, 'per-handler-chain|%s|%s' % (fn, map_field), ok, b.loc(bb, t),
+                   '%s records the %s of a handler from the chain it was handed (%s)%s' % (
+                       fn, what, ', '.join(params or own) or 'none found', '' if not stored else ' — NO: the stored value also depends on state kept across handlers: ' + ', '.join(sorted(stored))))
+    ctx.floor(rule, 'sites recording the %s of a handler' % what, n, 1)
